@@ -35,7 +35,7 @@ def build(chk):
     coefs = COEFS_QUICK + (COEFS_MORE if chk.tier == 'thorough' else [])
     chk.bounds = {'constraint functions': 'f = c1*x1 + c2*x2 + c12*x1*x2 + k for the listed concrete coefficient tuples (integers and dyadic rationals, exact in binary64): ' +
                   '; '.join(str(tuple(str(x) for x in c)) for c in coefs),
-                  'variables': 'x1, x2 integer or binary (kind by explored choice, also continuous for the rejection path); integer box endpoints symbolic in [-3,3] with lower <= upper; '
+                  'variable listing': 'ids 1,2,9 listed ascending or as 2,9,1', 'variables': 'x1, x2 integer or binary (kind by explored choice, also continuous for the rejection path); integer box endpoints symbolic in [-3,3] with lower <= upper; '
                   'binary variables without explicit bound', 'points': 'x1, x2 symbolic integers in the box: the solver covers every lattice point and (through the closed form s = -f(x)/b) every slack value',
                   'limits': 'max_integer_range and slack_upper_bound from {1, 3, 1000} resp. {1, 4}'}
     chk.assumptions += ['R-model; coefficients are concrete because Rational64::approximate_float (continued fractions on f64) is a concrete library model, validated differentially '
@@ -67,13 +67,17 @@ def build(chk):
         fx = sf.denote(lambda i: z3.ToReal(xs[i - 1]))
         return kinds, vars_, fn, sf, xs, inbox, z3real(fx)
 
+    def listing(P, vs):
+        # decision variables need not be listed by ascending id: [1,2,9] or [2,9,1] (the last listed id + 1 is then a used id)
+        return vs if P.choose(2) == 0 else [vs[1], vs[2], vs[0]]
+
     def mk_convert(coef):
         def h(P):
             kinds, vars_, fn, sf, xs, inbox, fx = setup(P, coef, [2, 1, 3])
             eqk = [LE, EQ][P.choose(2)]
             target = [5, 77][P.choose(2)]
             maxrange = [1, 3, 1000][P.choose(3)]
-            spec = Inst(objective=None, vars=vars_ + [Var(9, 3)], cons=[Con(5, eqk, (fn, sf), name='c5'), Con(6, LE, None)], removed=[])
+            spec = Inst(objective=None, vars=listing(P, vars_ + [Var(9, 3)]), cons=[Con(5, eqk, (fn, sf), name='c5'), Con(6, LE, None)], removed=[])
             inst = B.instance(spec)
             before = deep_clone(inst)
             used = {i for ids, c in sf.monos for i in ids if c.r != 0}
@@ -158,7 +162,7 @@ def build(chk):
             eqk = [LE, EQ][P.choose(2)]
             target = [5, 77][P.choose(2)]
             S = [1, 4][P.choose(2)]
-            spec = Inst(objective=None, vars=vars_ + [Var(9, 3)], cons=[Con(5, eqk, (fn, sf), name='c5')], removed=[])
+            spec = Inst(objective=None, vars=listing(P, vars_ + [Var(9, 3)]), cons=[Con(5, eqk, (fn, sf), name='c5')], removed=[])
             inst = B.instance(spec)
             before = deep_clone(inst)
             used = {i for ids, c in sf.monos for i in ids if c.r != 0}
@@ -265,6 +269,9 @@ def concrete_convert_ok(chk, idict, target, maxrange, res):
     act = {x['id']: x for x in after['constraints']}
     if target not in act:
         return all(v <= 0 for v in vals)
+    all_ids = [v['id'] for v in after['decision_variables']]
+    if len(set(all_ids)) != len(all_ids):
+        return False          # the slack variable reuses an existing id
     newv = [v for v in after['decision_variables'] if v['id'] not in kinds]
     if len(newv) != 1:
         return False
@@ -298,6 +305,9 @@ def concrete_add_ok(chk, idict, target, S, res):
     act = {x['id']: x for x in after['constraints']}
     if target not in act:
         return all(v <= 0 for v in vals)
+    all_ids = [v['id'] for v in after['decision_variables']]
+    if len(set(all_ids)) != len(all_ids):
+        return False          # the slack variable reuses an existing id
     newv = [v for v in after['decision_variables'] if v['id'] not in kinds]
     if len(newv) != 1:
         return False
